@@ -246,7 +246,7 @@ def parse_tab(line):
 def run_fol_program(prog):
     """prog: {'kb': desc, 'facts': [(id, g, lo, hi)], 'ops': [...]}.
     ops: ('up', id) ('down', id, idx) ('passup',) ('passdown',) ('infer', max) ('fact', id, g, lo, hi)
-         ('get', id, g) ('resetb',)"""
+         ('get', id, g) ('resetb',) ('flush',)"""
     import impl
     L = impl.lnn()
     impl.take_log()
@@ -369,6 +369,11 @@ def run_fol_program(prog):
             elif op[0] == "resetb":
                 kb.model.reset_bounds()
                 lines.append("fresetb")
+                out.append("ok")
+            elif op[0] == "flush":
+                # Model.flush(): a model re-used for a second episode; every stored row's data and bounds become UNKNOWN
+                kb.model.flush()
+                lines.append("fflush")
                 out.append("ok")
             elif op[0] == "print":
                 import io, contextlib
@@ -1139,8 +1144,11 @@ def run_c12(case):
         facts.append((pid, list(g), lo, hi))
     qfacts = []
     qvals = {}
+    staged = bool(case.get("staged"))
     for n in desc["nodes"]:
-        if n["kind"] in ("forall", "exists") and n["id"] in desc["roots"]:
+        # staged cases: no data on quantifiers (a bound given for the quantifier over ALL instances does not hold for the
+        # instances known in the first stage: the open-world reading, known finding D14)
+        if n["kind"] in ("forall", "exists") and n["id"] in desc["roots"] and not staged:
             fv = unique_vars(desc, n["id"])
             if not fv:                   # fully quantified: a proposition-like formula that accepts data
                 v = eval_formula(desc, n["id"], {}, atom, nc, weights)
@@ -1154,8 +1162,16 @@ def run_c12(case):
                     lo, hi = ZERO, ONE
                 if (lo, hi) != (ZERO, ONE):
                     qfacts.append((n["id"], [], lo, hi))
-    prog = {"kb": desc, "facts": facts + qfacts, "ops": list(case["ops"])}
+    ops = list(case["ops"])
+    if staged:
+        # the individuals arrive in two stages, the one whose name sorts FIRST last: instance groups of a partially
+        # quantified formula are then created in an order that is not the sorted one
+        late = [f for f in facts if 0 in f[1]]
+        facts = [f for f in facts if 0 not in f[1]]
+        ops = [("infer", 60)] + [("fact", f[0], f[1], f[2], f[3]) for f in late] + ops
+    prog = {"kb": desc, "facts": facts + qfacts, "ops": ops}
     rec = run_fol_program(prog)
+    rec["meta"]["staged"] = staged
     rec["meta"]["atom"] = {f"{pid}:{gtxt(g)}": q(v) for (pid, g), v in atom.items()}
     rec["meta"]["qvals"] = qvals
     rec["meta"]["qfacts"] = [(i, q(lo), q(hi)) for i, _, lo, hi in qfacts]
@@ -1217,7 +1233,7 @@ def gen_c12_case(rng):
     if rng.random() < 0.5:
         ops = [("passup",), ("down", nid, None), ("infer", 60)]
     return {"kb": {"preds": preds, "nodes": nodes, "roots": [nid]}, "atoms": atoms, "n_consts": nc,
-            "seed": rng.randrange(1 << 30), "ops": ops}
+            "seed": rng.randrange(1 << 30), "ops": ops, "staged": rng.random() < 0.35}
 
 
 # ------------------------------------------------------------------ C18: losses on first-order models
